@@ -310,4 +310,43 @@ theorem flatMap_expected {α} (cfg : Config) (l : List (ContigIn α × Nat))
       rfl
     · rfl
 
+/-! ### when the run ends normally -/
+
+theorem planContig_ok {α} {cfg : Config} (i : Nat) {c : ContigIn α}
+    (h1 : c.alns = [] ∨ c.inVcf = true ∨ cfg.skipMissing = true)
+    (h2 : (prepareAll cfg.ploidy cfg.cutoff cfg.ignoreLinked c.samples).error = none) :
+    ∃ r, planContig cfg i c = .ok r := by
+  unfold planContig
+  split
+  · exact ⟨_, rfl⟩
+  · rename_i he
+    split
+    · rename_i hv
+      rcases h1 with h | h | h
+      · exact absurd (by simp [h]) he
+      · simp [h] at hv
+      · simp only [h, if_true]; exact ⟨_, rfl⟩
+    · simp only [h2]; exact ⟨_, rfl⟩
+
+theorem haplotagLoop_ok {α} (cfg : Config) : ∀ l : List (Nat × ContigIn α × List Region),
+    (∀ t ∈ l, (t.2.1.alns = [] ∨ t.2.1.inVcf = true ∨ cfg.skipMissing = true) ∧
+      (prepareAll cfg.ploidy cfg.cutoff cfg.ignoreLinked t.2.1.samples).error = none) →
+    ∃ w, haplotagLoop cfg l = .ok w := by
+  intro l
+  induction l with
+  | nil => intro _; exact ⟨[], rfl⟩
+  | cons x rest ih =>
+    obtain ⟨i, c, regions⟩ := x
+    intro h
+    obtain ⟨w', hw'⟩ := ih (fun t ht => h t (List.mem_cons_of_mem _ ht))
+    obtain ⟨r, hr⟩ := planContig_ok (cfg := cfg) i (h (i, c, regions) List.mem_cons_self).1 (h (i, c, regions) List.mem_cons_self).2
+    simp only [haplotagLoop, hr, hw']
+    cases r with
+    | none => exact ⟨_, rfl⟩
+    | some ctx => exact ⟨_, rfl⟩
+
+theorem mem_of_mem_selectContigs {β} {xs : List β} {regions : Option (List (Nat × Region))} {t : Nat × β × List Region}
+    (h : t ∈ selectContigs xs regions) : t.2.1 ∈ xs :=
+  List.mem_of_getElem? (mem_selectContigs h)
+
 end WhVerif.C10
